@@ -282,6 +282,8 @@ class MockCA:
                         a["forgotten"] = True
             if ans.get("process"):
                 # let the CA process the request normally, then override parts of the answer
+                # ({"process": True, "drop": True} = processed by the CA, the answer never arrives)
+                rec["processed"] = True
                 base_ans = self.conform(kind, method, path, jws, rec)
                 patch = ans.pop("patch", None)
                 drop_keys = ans.pop("drop_keys", None)
@@ -466,6 +468,7 @@ class MockCA:
         rec["sig_ok"] = ok
         rec["signer"] = "account-key-on-record"
         rec["alg_on_record"] = acc["alg"]
+        rec["jwk_on_record"] = acc["jwk"]      # (the object is replaced, never mutated, by a roll-over)
         rec["key_kind"] = jwk_kind(acc["jwk"])
 
     def check_post(self, jws, rec, path, want_jwk):
